@@ -66,6 +66,24 @@ def r1_step_shape(repo: Repo, rep):
     calls = [n for s in loop.body for n in ast.walk(s) if isinstance(n, ast.Call) and isinstance(n.func, ast.Name) and n.func.id == var]
     nested = [n for s in loop.body for l in ast.walk(s) if isinstance(l, (ast.For, ast.While)) for n in ast.walk(l)
               if isinstance(n, ast.Call) and isinstance(n.func, ast.Name) and n.func.id == var]
+    if not calls:
+        # conditions evaluated elsewhere (comprehension / helper): look for a keyed container that can merge conditions
+        keyed = []
+        for n in ast.walk(fn):
+            if isinstance(n, ast.DictComp) and any("train_conditions" in dump(g.iter) for g in n.generators):
+                tv = {x.id for g in n.generators for x in ast.walk(g.target) if isinstance(x, ast.Name)}
+                has_call = any(isinstance(c, ast.Call) and isinstance(c.func, ast.Name) and c.func.id in tv for c in ast.walk(n.value))
+                key_is_obj = isinstance(n.key, ast.Name) and n.key.id in tv
+                if has_call and not key_is_obj:
+                    keyed.append(n)
+        if keyed:
+            rep.violation(R, fi.site(keyed[0]), fi.fq, "each condition's loss enters the sum exactly once",
+                          f"losses are stored under the key `{dump(keyed[0].key)}`, which is not unique per condition "
+                          "(conditions with equal names collapse into one entry)", "keyed by " + dump(keyed[0].key))
+        else:
+            rep.undecided(R, fi.site(loop), fi.fq, "each condition is evaluated exactly once per step",
+                          f"no call of `{var}(...)` in the loop body: evaluation idiom outside the rule's table")
+        return
     if len(calls) != 1 or nested:
         rep.violation(R, fi.site(loop), fi.fq, "each condition is evaluated exactly once per step",
                       f"{len(calls)} call(s) of `{var}(...)` in the loop body ({len(nested)} in nested loops)",
